@@ -960,6 +960,8 @@ impl TypeChecker {
                 let (f_ty, ret_ty) = self.type_from_function(ctx, params, ret, *pure)?;
 
                 let ctx = if *pure { ctx.enter_pure() } else { ctx };
+                // A loop around the function literal is not a loop of the function.
+                let ctx = TypeCtx { inside_loop: false, ..ctx };
                 let (actual_ret, implicit_ret) = self.expression_block(*span, body, ctx)?;
                 let actual_ret = if ret.is_void() {
                     let void = Some(self.push_type(Type::Void));
